@@ -91,6 +91,18 @@ func RunSocks(behs [][]Step, tr *Trace, env Env, sum *Summary) {
 	sw := newSocksWorld(env, env.Shard)
 	defer sw.w.Close()
 	for bi, beh := range behs {
+		bi, beh := bi, beh
+		// a scenario that does not finish (a table mutex that is never released, a relay that stalls) must not
+		// stall the whole run: it is reported and the shard stops
+		if pan, to := guarded(func() { runSocksScenario(sw, bi, beh, tr, sum) }, 45*time.Second); pan != "" || to {
+			sum.Incidents = append(sum.Incidents, Incident{Behaviour: bi, Kind: map[bool]string{true: "hang", false: "panic"}[to], Site: "socks scenario", Detail: firstLines(pan, 14)})
+			break
+		}
+	}
+}
+
+func runSocksScenario(sw *socksWorld, bi int, beh []Step, tr *Trace, sum *Summary) {
+	{
 		sc := beh[0]["sc"].(map[string]any)
 		s := func(k string) string { v, _ := sc[k].(string); return v }
 		n := func(k string) int { v, _ := sc[k].(float64); return int(v) }
